@@ -437,7 +437,11 @@ func labelArgsNonEmpty(r R, ls []string) []string {
 }
 
 func truncStep(r R) *gripql.GraphStatement {
-	switch r.Intn(4) {
+	switch r.Intn(5) {
+	case 4:
+		// an empty window: stop at or below start
+		a := int32(1 + r.Intn(4))
+		return Range(a, a-int32(r.Intn(int(a)+1)))
 	case 0:
 		return Limit(uint32(r.Intn(5)))
 	case 1:
